@@ -514,6 +514,11 @@ func (jenny RawTypes) maybeValueAsPointer(value string, nullable bool, typeDef a
 		return value
 	}
 
+	// bytes are declared as a slice, optional or not
+	if typeDef.IsScalar() && typeDef.AsScalar().ScalarKind == ast.KindBytes {
+		return value
+	}
+
 	nonNullableField := typeDef.DeepCopy()
 	nonNullableField.Nullable = false
 	typeHint := jenny.typeFormatter.formatType(nonNullableField)
@@ -530,6 +535,13 @@ func (jenny RawTypes) formatDefaultValue(fieldType ast.Type, resolvedFieldType a
 		jenny.typeFormatter.imports.Add("time", "time")
 
 		return fmt.Sprintf("func() time.Time { parsed, _ := time.Parse(time.RFC3339, %s); return parsed }()", formatScalar(text))
+	}
+
+	// bytes are written in base64 in a JSON document, the default of the schema included
+	if text, isString := value.(string); isString && resolvedFieldType.IsScalar() && resolvedFieldType.AsScalar().ScalarKind == ast.KindBytes {
+		jenny.typeFormatter.imports.Add("base64", "encoding/base64")
+
+		return fmt.Sprintf("func() []byte { decoded, _ := base64.StdEncoding.DecodeString(%s); return decoded }()", formatScalar(text))
 	}
 
 	// a map is a literal of the map's own type: `map[string]string{"env": "prod"}`
